@@ -343,7 +343,7 @@ func init() {
 		Required: []string{"trees", "walk.events", "walk.positions", "walk.comment.nodes", "probes"},
 		Streams: []fw.Stream{
 			{Name: "probes", Quick: len(c18Probes), Thorough: len(c18Probes), Run: c18Probe},
-			{Name: "walk", Quick: 200000, Thorough: 5000000, Run: c18Run},
+			{Name: "walk", Quick: 200000, Thorough: 10000000, Run: c18Run},
 		},
 	})
 }
